@@ -132,6 +132,11 @@ func (c *ConfigManager) ReloadFromRaw(data []byte) (err error) {
 			// a configuration that could not be put in force is not the current one: its hash must not be
 			// reported, or the coordinator takes this shard for in sync and never sends the configuration again
 			c.currentConfig = old
+			// the callbacks that had succeeded hold the refused configuration: they get the previous one back, or
+			// what they do next (regenerate the file for Prometheus at the next targets update) is done with it
+			for _, g := range c.callbacks {
+				_ = g(old)
+			}
 			return err
 		}
 	}
